@@ -71,7 +71,8 @@ func isIntType(t types.Type) bool {
 }
 
 func (b *boundsCtx) atom(v Val) lin {
-	k := ap(v)
+	// full identity (call site, memory epoch): two reads of a buffer's length at different times are different numbers
+	k := v.Key()
 	if _, ok := b.atoms[k]; !ok {
 		b.atoms[k] = v
 	}
